@@ -27,6 +27,7 @@ type vSink struct {
 	buf    []byte
 	writes int
 	failAt int // index of the first Write call that fails; <0: never
+	once   bool // only that one Write fails (a transient fault); later Writes are accepted again
 	failed bool
 }
 
@@ -37,7 +38,7 @@ func (vSinkErr) Error() string { return "sink failure" }
 var vErrSink error = vSinkErr{}
 
 func (s *vSink) Write(p []byte) (int, error) {
-	if s.failAt >= 0 && s.writes >= s.failAt {
+	if s.failAt >= 0 && (s.writes == s.failAt || (s.writes > s.failAt && !s.once)) {
 		s.writes++
 		s.failed = true
 		return 0, vErrSink
